@@ -43,7 +43,9 @@ RULE = ('one PRNG; a case is a random mesh (ring with chords / grid / random con
         'different partners, vectors repeated 2-7 times with permuted ids; ~15 % are one vector of 2-3 requests on a '
         'triangle / square (+ diagonal) / 5-ring where each request has its own STRICT, LOOSE or mixed include list '
         '(a STRICT detour colliding with the partner\'s only route next to a partner missing only a LOOSE hop), both '
-        'orders inside the vector. Non-trivial = some vector has a '
+        'orders inside the vector; ~6 % long rings (12-14 ROADMs, 2-5 spans per link) whose only disjoint alternative is '
+        '75-85 elements long (the 80-hop cut-off from both sides); 15 % of the random meshes have a PARALLEL link (links '
+        'are identified by OMS); link-only / node-only disjointness flags and vectors of one request now and then. Non-trivial = some vector has a '
         'request with at least two candidate paths.')
 MODEL_SCOPE = ('modelled: isdisjoint, the short list of step 1, find_reversed_path (C11), steps 2-5 of '
                'compute_path_dsjctn over candidate indices incl. Python remove-while-iterating semantics and '
@@ -210,8 +212,61 @@ def gen_strict_loose(rng, tier):
     return {'kind': 'disj', 'mesh': mesh, 'reqs': reqs, 'sync': [order], 'via': 'dsjctn'}
 
 
+def gen_long_ring(rng, tier):
+    """the 80-hop cut-off of step 1 (`all_simple_paths(cutoff=80)`: candidates of at most 81 elements): a ring of 12-14
+    ROADMs with 2-5 spans per link and a 1+1 pair whose only disjoint alternative is the long way round, 77 ... 85
+    elements long - completeness 'for candidate paths of at most 80 elements' on both sides of the limit (a candidate of
+    exactly 81 elements is the boundary and is not judged)"""
+    n = rng.choice([12, 13, 14])
+    h = rng.choice([8, 9, 9, 10])                       # hops of the long way
+    d = n - h                                           # hops of the short way
+    target = rng.choice([75, 77, 79, 79, 81, 83, 83, 85])      # elements of the long way: 3 + sum(2k+2)
+    ks = [3] * h
+    total = lambda: 3 + sum(2 * k + 2 for k in ks)      # noqa: E731
+    guard = 0
+    while total() != target and guard < 200:
+        i = rng.randrange(h)
+        if total() < target and ks[i] < 5:
+            ks[i] += 1
+        elif total() > target and ks[i] > 2:
+            ks[i] -= 1
+        guard += 1
+    links = []
+    # ROADMs 0..n-1 on a ring; the pair runs 0 -> d (short way 0,1,..,d; long way 0,n-1,...,d)
+    for i in range(n):
+        a, b = i, (i + 1) % n
+        k = 3 if i < d else ks[i - d]
+        if i < d:
+            k = rng.choice([2, 3, 3])
+        spans = [80] * k
+        links.append([min(a, b), max(a, b), list(spans), list(spans), rng.choice(['plain', 'plain', 'fused'])])
+    if rng.random() < 0.5:
+        # one line of the long way ends in a Fused: the long way becomes 76 ... 86 elements (even lengths, 80 included)
+        links[rng.randrange(d, n)][4] = 'fusedend'
+    mesh = {'n': n, 'links': links}
+    s, t = (0, d) if rng.random() < 0.7 else (d, 0)
+    reqs = [{'id': 0, 'src': ['T', s], 'dst': ['T', t], 'inc': [], 'bidir': False, 'mode': 'mode 1'},
+            {'id': 1, 'src': ['T', s] if rng.random() < 0.7 else ['T', t],
+             'dst': ['T', t], 'inc': [], 'bidir': False, 'mode': 'mode 1'}]
+    if reqs[1]['src'] == reqs[1]['dst']:
+        reqs[1]['src'], reqs[1]['dst'] = ['T', t], ['T', s]
+    return {'kind': 'disj', 'mesh': mesh, 'reqs': reqs, 'sync': [rng.sample([0, 1], 2)], 'via': 'dsjctn'}
+
+
 def gen(rng, tier, widen=False):
+    case = gen0(rng, tier, widen)
     r = rng.random()
+    if r < 0.12:
+        case['disjointness'] = rng.choice(['link', 'link', 'node'])       # the loader only records the two flags
+    if rng.random() < 0.06 and case['reqs']:
+        case['sync'] = case['sync'] + [[rng.choice(case['reqs'])['id']]]   # a vector of one request demands nothing
+    return case
+
+
+def gen0(rng, tier, widen=False):
+    r = rng.random()
+    if r > 0.94:
+        return gen_long_ring(rng, tier)
     if r > (0.75 if widen else 0.85):
         return gen_strict_loose(rng, tier)
     if r < (0.4 if widen else 0.2):
@@ -223,7 +278,8 @@ def gen(rng, tier, widen=False):
     else:
         n = rng.choice([4, 5, 6, 7, 8, 9, 10])
     shape = rng.choice(['ring', 'ring', 'grid', 'random', 'random', 'tree+'])
-    mesh = meshes.rand_mesh(rng, n, shape=shape, max_extra=(rng.choice([2, 3, 5]) if n <= 6 else 3 if n <= 7 else 2))
+    mesh = meshes.rand_mesh(rng, n, shape=shape, max_extra=(rng.choice([2, 3, 5]) if n <= 6 else 3 if n <= 7 else 2),
+                            parallel=0.15)
     single_pair = rng.random() < 0.5
     k = 2 if (single_pair and rng.random() < 0.6) else rng.randint(2, 6)
     reqs = []
@@ -316,8 +372,8 @@ def sync_bookkeeping(res, drv, rqs, d0, declared):
     for sv in set(sets_in):
         if sv not in sets_out:
             res.fail(f'vector lost: deduplicate_disjunctions dropped every vector over {sorted(sv)}')
-    if any([i, r] not in [[b['id'], b['reqs']] for b in before] for i, r in after):
-        res.fail('vector invented: deduplicate_disjunctions returned a vector that was not declared')
+    if any(sv not in sets_in for sv in sets_out):
+        res.fail('vector invented: deduplicate_disjunctions returned a vector over a set of requests that was not declared')
     res.stats['dedup_removed'] += len(before) - len(after)
     res.stats['dedup_duplicates_left'] += int(len(set(sets_out)) < len(sets_out))
     # ---- aggregation
@@ -392,10 +448,14 @@ def run(case, drv):
                      'inc': inc, 'bidir': r.get('bidir', False), 'mode': r.get('mode', 'mode 1')})
     byid = {r['id']: r for r in reqs}
     sync = [[str(x) for x in grp] for grp in case['sync']]
-    data = meshes.service_json(reqs, sync)
+    data = meshes.service_json(reqs, sync, case.get('disjointness', 'node link'))
+    parallel = net.has_parallel()
+    res.stats['parallel_links'] += int(parallel)
+    res.stats['disjointness_' + case.get('disjointness', 'node link').replace(' ', '+')] += 1
     # ------------------------------------------------------------------------------------------- implementation
     raised = None
     results = {}          # request id -> path uids
+    reasons = {}          # request id -> blocking_reason
     rqs = dsjn = None
     cands = None
     pre = None
@@ -406,6 +466,7 @@ def run(case, drv):
             for rq, p in zip(rqs, pths):
                 for rid in rq.request_id.split(' | '):
                     results[rid] = [e.uid for e in p]
+                    reasons[rid] = getattr(rq, 'blocking_reason', None)
         except DisjunctionError:
             raised = 'DisjunctionError'
         except Exception as e:
@@ -427,6 +488,7 @@ def run(case, drv):
                'strict': [S in rq.loose_list for rq in disjt],
                'groups': [[k, list(d.disjunctions_req)] for k, d in enumerate(dsjn)]}
         stale = [x for x in in_groups if x not in pre['ids']]
+        res.stats['stale_ids_selection_skipped'] += int(bool(stale))
         if not stale:
             cands = [[[e.uid for e in p] for p in step1_candidates(net, rq)] for rq in disjt]
         try:
@@ -434,6 +496,7 @@ def run(case, drv):
             for rq, p in zip(rqs, pths):
                 for rid in rq.request_id.split(' | '):
                     results[rid] = [e.uid for e in p]
+                    reasons[rid] = getattr(rq, 'blocking_reason', None)
         except DisjunctionError:
             raised = 'DisjunctionError'
         except Exception as e:
@@ -460,7 +523,7 @@ def run(case, drv):
                 continue
             for i in range(len(grp)):
                 for j in range(i + 1, len(grp)):
-                    if not routing.link_disjoint(net, paths[i], paths[j]):
+                    if not routing.link_disjoint(net, paths[i], paths[j], 'lenient'):
                         common = [l for l in net.links(paths[i]) if l in net.links(paths[j])
                                   or (l[1], l[0]) in net.links(paths[j])]
                         res.fail(f'shared link: requests {grp[i]} and {grp[j]} of vector {grp} both use {common[:2]} '
@@ -473,14 +536,22 @@ def run(case, drv):
                     res.fail(f'strict include not honoured: request {rid} of vector {grp} does not cross {inc} in order')
             # ---- Lean checker on the same paths
             ans = drv.ask('c12.check', n=net.n, roadms=roadm_ids, paths=[net.ids(p) for p in paths])
-            res.cmp_exact('allDisjointB(impl paths)', True, ans['all'], vector=grp)
+            # Lean keys links by ROADM pair (= 'strict'); with parallel links that is more than the property demands
+            res.cmp_exact('oracle.linkDisjointB', [[routing.link_disjoint(net, p, q, 'strict') for q in paths]
+                                                   for p in paths], ans['pairs'])
+            if not parallel:
+                res.cmp_exact('allDisjointB(impl paths)', True, ans['all'], vector=grp)
             res.cmp_exact('oracle.links', [[[net.idx[a], net.idx[b]] for a, b in net.links(p)] for p in paths],
                           ans['links'])
-        # requests outside every vector: plain C11 behaviour (light check)
+        # requests outside every vector of a batch that has vectors: the full C11 monitor (real loop-free route, includes
+        # in order, minimal fibre length, STRICT / LOOSE handling)
+        from props import c11
         ingrp = {x for g in groups for x in g}
         for rr in reqs:
-            if rr['id'] not in ingrp and results.get(rr['id']):
-                check_route_basic(net, res, rr['id'], rr['src'], rr['dst'], results[rr['id']])
+            if rr['id'] not in ingrp and rr['id'] in results:
+                c11.judge(net, res, rr, [u for u, _ in rr['inc']], [h for _, h in rr['inc']], results[rr['id']],
+                          reasons.get(rr['id']), via)
+                res.stats['outside_requests_judged'] += 1
     # ------------------------------------------------------------------------------------------- single pair: completeness
     if len(groups) == 1 and len(set(groups[0])) == 2:
         a, b = byid[groups[0][0]], byid[groups[0][1]]
@@ -491,16 +562,32 @@ def run(case, drv):
             allp = [p for p in net.simple_paths(rr['src'], rr['dst']) if len(p) <= limit]
             return allp, [p for p in allp if (not strict) or routing.crosses_in_order(inc, p)], \
                 [p for p in allp if routing.crosses_in_order(inc, p)]
-        exists = {}
+        exists, exists_strict = {}, {}
         for limit in (80, 81):
             pa, acca, fulla = acc_paths(a, limit)
             pb, accb, fullb = acc_paths(b, limit)
-            exists[limit] = any(routing.link_disjoint(net, p, q) for p in acca for q in accb)
-            exists_full = any(routing.link_disjoint(net, p, q) for p in fulla for q in fullb)
+            exists[limit] = any(routing.link_disjoint(net, p, q, 'lenient') for p in acca for q in accb)
+            exists_strict[limit] = any(routing.link_disjoint(net, p, q, 'strict') for p in acca for q in accb)
+            exists_full = any(routing.link_disjoint(net, p, q, 'strict') for p in fulla for q in fullb)
         if len(pa) >= 2 or len(pb) >= 2:
             nontrivial = True
-        if exists[80] != exists[81]:
+        longest = max([len(p) for p in net.simple_paths(a['src'], a['dst']) + net.simple_paths(b['src'], b['dst'])] or [0])
+        res.stats['longest_candidate_' + ('<=60' if longest <= 60 else '61-78' if longest <= 78 else '79-80' if
+                                          longest <= 80 else '81' if longest == 81 else '>81')] += 1
+        # the Lean oracle (ROADM-pair links, candidates of at most 81 elements = cutoff 80 hops) vs the brute force
+        def rq(rr):
+            return {'s': net.idx[rr['src']], 't': net.idx[rr['dst']], 'inc': net.ids([u for u, _ in rr['inc']]),
+                    'strict': S in [h for _, h in rr['inc']]}
+        o = drv.ask('c12.oracle', roadms=roadm_ids, r1=rq(a), r2=rq(b), **net.graph_args())
+        res.cmp_exact('oracle.exists', exists_strict[81], o['exists'])
+        res.cmp_exact('oracle.ncand', [len(pa), len(pb)], [o['ncand1'], o['ncand2']])
+        res.cmp_exact('oracle.nacceptable', [len(acca), len(accb)], [o['nacc1'], o['nacc2']])
+        if exists[80] != exists[81] or exists_strict[80] != exists_strict[81]:
             res.ill += 1          # the solution hinges on a path of exactly 81 elements: cut-off boundary, not judged
+            res.stats['ill_cutoff_boundary'] += 1
+        elif exists[81] != exists_strict[81]:
+            res.ill += 1          # parallel links: which backward line is 'the' opposite of a forward line is not determined
+            res.stats['ill_parallel_pairing'] += 1
         elif raised in (None, 'DisjunctionError'):
             if exists[81] and raised:
                 res.fail(f'pair incomplete: DisjunctionError although an acceptable link-disjoint pair exists for '
@@ -510,20 +597,12 @@ def run(case, drv):
                 res.fail(f'no error: paths returned although no acceptable link-disjoint pair exists for requests '
                          f'{a["id"]} and {b["id"]}')
             if raised is None and exists_full:
+                # step 4 keeps the combinations honouring every list when there are some (not stated by C12: correspondence)
                 for rr in (a, b):
                     inc = [u for u, _ in rr['inc']]
                     p = results.get(rr['id'])
-                    if p and not routing.crosses_in_order(inc, p):
-                        res.fail(f'loose dropped needlessly: request {rr["id"]} ignores its LOOSE list {inc} although '
-                                 f'a disjoint pair honouring every include list exists')
-            # Lean oracle
-            def rq(rr):
-                return {'s': net.idx[rr['src']], 't': net.idx[rr['dst']], 'inc': net.ids([u for u, _ in rr['inc']]),
-                        'strict': S in [h for _, h in rr['inc']]}
-            o = drv.ask('c12.oracle', roadms=roadm_ids, r1=rq(a), r2=rq(b), **net.graph_args())
-            res.cmp_exact('oracle.exists', exists[81], o['exists'])
-            res.cmp_exact('oracle.ncand', [len(pa), len(pb)], [o['ncand1'], o['ncand2']])
-            res.cmp_exact('oracle.nacceptable', [len(acca), len(accb)], [o['nacc1'], o['nacc2']])
+                    res.cmp_exact('step4.loose_lists_kept_when_a_full_solution_exists', True,
+                                  bool(p) and routing.crosses_in_order(inc, p), request=rr['id'])
             res.cmp_exact('compute_path_dsjctn.DisjunctionError(pair)', bool(raised), not o['exists'])
         res.stats['single_pair'] += 1
         res.stats[f'pair_solution_exists_{exists[81]}'] += 1
@@ -546,9 +625,10 @@ def run(case, drv):
             for k, g in pre['groups']:
                 for x in g:
                     for y in g:
-                        if x != y and (pos[x], pos[y]) not in donep and (pos[y], pos[x]) not in donep:
+                        # both orientations: the test of step 2 reverses the NEW path only ('impl' mode, see routing)
+                        if x != y and (pos[x], pos[y]) not in donep:
                             donep.add((pos[x], pos[y]))
-                            dis.append([pos[x], pos[y], [[routing.link_disjoint(net, p, q) for q in cands[pos[y]]]
+                            dis.append([pos[x], pos[y], [[routing.link_disjoint(net, p, q, 'impl') for q in cands[pos[y]]]
                                                          for p in cands[pos[x]]]])
             ok = [[routing.crosses_in_order(pre['nodes'][r], p) for p in cands[r]] for r in range(len(ids))]
             vals = {}
@@ -585,10 +665,12 @@ def run(case, drv):
             res.cmp_exact('isdisjoint(direct)', d1, m['direct'])
             res.cmp_exact('isdisjoint(reverse)', d2, m['reverse'])
             res.cmp_exact('shortList', net.ids(short_list(net, p)), m['short_p'])
-            res.cmp_exact('oracle.link_disjoint', routing.link_disjoint(net, p, q), m['link_disjoint'])
-            if (d1 + d2 == 0) != routing.link_disjoint(net, p, q):
+            res.cmp_exact('oracle.link_disjoint', routing.link_disjoint(net, p, q, 'strict'), m['link_disjoint'])
+            res.cmp_exact('isdisjoint = step-2 relation', d1 + d2 == 0, routing.link_disjoint(net, p, q, 'impl'))
+            ld = routing.link_disjoint(net, p, q, 'lenient')
+            if ld == routing.link_disjoint(net, p, q, 'strict') and (d1 + d2 == 0) != ld:
                 res.fail(f'isdisjoint test: isdisjoint(p,q)+isdisjoint(rev p,q) = {d1 + d2} but own OMS computation says '
-                         f'link-disjoint = {routing.link_disjoint(net, p, q)}')
+                         f'link-disjoint = {ld}')
     if dsjn is not None and pre is not None:
         res.stats[f'vectors_{min(len(pre["groups"]), 4)}'] += 1
     res.stats.update({f'roadms_{case["mesh"]["n"]}': 1, f'requests_{len(reqs)}': 1,
@@ -655,5 +737,5 @@ def shrink_candidates(case):
     for i, lk in enumerate(case['mesh']['links']):
         if len(lk[2]) > 1 or len(lk[3]) > 1 or lk[4] != 'plain':
             c = copy.deepcopy(case)
-            c['mesh']['links'][i] = [lk[0], lk[1], lk[2][:1], lk[3][:1], 'plain']
+            c['mesh']['links'][i] = [lk[0], lk[1], lk[2][:1], lk[3][:1], 'plain'] + list(lk[5:])
             yield c
